@@ -250,7 +250,7 @@ func c09Account(st *Stats, c ScaleCase, o scaleOutcome) {
 	}
 	st.ClassN("scalings succeeded", int64(o.successes))
 	st.ClassN("scalings refused (too small)", int64(o.errors))
-	st.Cover("source_families", c.Source.label())
+	st.Cover("source_families", c.Source.Label())
 	if o.chainDepth >= 2 {
 		st.Class("chain of >= 2 scalings")
 	}
@@ -266,7 +266,7 @@ func TestC09Rapid(t *testing.T) {
 		o := checkScale(rt, c)
 		c09Account(st, c, o)
 		if len(c.Source.Content) < 10 && len(c.Steps) <= 2 {
-			st.Sample(c.Source.label(), c)
+			st.Sample(c.Source.Label(), c)
 		}
 	})
 }
